@@ -121,7 +121,7 @@ pub fn gen_map(rng: &mut Rng, o: &GenOpts) -> String {
     s.push_str(&format!("BeatmapID:{}\nBeatmapSetID:{}\n", rng.pick(&["0", "123456", "-1", "7"]), rng.pick(&["0", "654", "-1", "99"])));
     s.push_str("\n[Difficulty]\n");
     let order_ar_first = rng.chance(1, 2);
-    s.push_str(&format!("HPDrainRate:{}\nCircleSize:{}\n", num(rng, h, &["5", "6.5", "0", "10"]), num(rng, h, &["4", "3.2", "7"])));
+    s.push_str(&format!("HPDrainRate:{}\nCircleSize:{}\n", num(rng, h, &["5", "6.5", "0", "10"]), num(rng, h, &["4", "3.2", "7", "20", "-3", "18", "0", "11.5"])));
     if order_ar_first && rng.chance(2, 3) {
         s.push_str(&format!("ApproachRate:{}\n", num(rng, h, &["9", "9.3", "8"])));
     }
